@@ -148,7 +148,8 @@ pub const QVALS: &[&str] = &["1", "x", "ab", "2021-02-01", "goalstate", "%41b", 
 pub const USERS: &[&str] = &["root", "alice", "bob", "Alice", "undefined"];
 pub const GROUPS: &[&str] = &["root", "wheel", "users", "Wheel", "g1"];
 pub const PROCS: &[&str] = &["curl", "python3", "waagent", "Curl", "cur"];
-pub const EXES: &[&str] = &["/usr/bin/curl", "/usr/bin/python3", "/usr/sbin/waagent", "/usr/bin/Curl", "/usr/bin/cur"];
+// the helper processes of the end-to-end rig live at these paths (ns::RUN_ROOT/bin/<name>)
+pub const EXES: &[&str] = &["/verif/run/bin/curl", "/verif/run/bin/python3", "/verif/run/bin/waagent", "/verif/run/bin/Curl", "/verif/run/bin/cur"];
 
 pub fn sel(pool: &'static [&'static str]) -> impl Strategy<Value = String> {
     (0..pool.len()).prop_map(move |i| pool[i].to_string())
@@ -473,4 +474,95 @@ pub fn gurl_no_traversal() -> impl Strategy<Value = GUrl> {
         }
         u
     })
+}
+
+// ------------------------------------------------------------------------------------------------
+// HTTP requests for the end-to-end rig
+
+#[derive(Clone, Debug, Serialize, Deserialize, Hash, PartialEq, Eq)]
+pub struct GReq {
+    pub method: String,
+    pub url: GUrl,
+    pub bind: Bind,
+    /// end-to-end headers (names unique case-insensitively unless a check adds duplicates itself)
+    pub headers: Vec<(String, String)>,
+    pub body: Vec<u8>,
+    /// None = Content-Length framing (or no framing header at all when the body is empty and `bare_empty`)
+    pub chunked: Option<Vec<usize>>,
+    pub bare_empty: bool,
+}
+
+pub const REQ_METHODS: &[&str] = &["GET", "GET", "GET", "POST", "PUT", "DELETE", "PATCH", "HEAD", "OPTIONS"];
+pub const REQ_HNAMES: &[&str] = &["metadata", "x-ms-version", "content-type", "accept", "user-agent", "x-a", "x-ab", "x-ms-client-request-id", "if-match", "x-zz"];
+
+pub fn req_header_value() -> impl Strategy<Value = String> {
+    prop_oneof![4 => "[!-~]{1,12}", 2 => "[!-~][ -~]{0,10}[!-~]", 1 => Just("True".to_string()), 1 => Just("application/json; charset=utf-8".to_string())]
+}
+
+pub fn req_headers() -> impl Strategy<Value = Vec<(String, String)>> {
+    prop::collection::vec((0usize..REQ_HNAMES.len(), case_mask(), req_header_value()), 0..6).prop_map(|v| {
+        let mut seen = std::collections::BTreeSet::new();
+        let mut out = Vec::new();
+        for (i, m, val) in v {
+            if seen.insert(i) {
+                out.push((flip_case(REQ_HNAMES[i], m), val));
+            }
+        }
+        out
+    })
+}
+
+pub fn small_body() -> impl Strategy<Value = Vec<u8>> {
+    prop_oneof![
+        5 => Just(Vec::new()),
+        4 => prop::collection::vec(any::<u8>(), 1..64),
+        1 => prop::collection::vec(any::<u8>(), 200..2000),
+    ]
+}
+
+pub fn greq_with(url: impl Strategy<Value = GUrl>) -> impl Strategy<Value = GReq> {
+    (sel(REQ_METHODS), url, bind(), req_headers(), small_body(), prop::option::weighted(0.25, prop::collection::vec(1usize..700, 1..4)), any::<bool>()).prop_map(
+        |(method, url, bind, headers, mut body, chunked, bare_empty)| {
+            if method == "GET" || method == "HEAD" || method == "OPTIONS" || method == "DELETE" {
+                // bodies on these are legal but unusual; keep them rare
+                if body.len() > 8 {
+                    body.clear();
+                }
+            }
+            GReq { method, url, bind, headers, body, chunked, bare_empty }
+        },
+    )
+}
+
+pub fn greq() -> impl Strategy<Value = GReq> {
+    greq_with(gurl())
+}
+
+impl GReq {
+    /// the bytes the raw client writes
+    pub fn wire(&self, target: &str, extra_headers: &[(String, Vec<u8>)]) -> Vec<u8> {
+        let mut hs: Vec<(String, Vec<u8>)> = vec![("Host".to_string(), b"168.63.129.16".to_vec())];
+        for (n, v) in &self.headers {
+            hs.push((n.clone(), v.as_bytes().to_vec()));
+        }
+        for (n, v) in extra_headers {
+            hs.push((n.clone(), v.clone()));
+        }
+        let mut body_wire = Vec::new();
+        match &self.chunked {
+            Some(sizes) if !self.body.is_empty() => {
+                hs.push(("Transfer-Encoding".into(), b"chunked".to_vec()));
+                body_wire = crate::rawhttp::encode_chunked(&self.body, sizes);
+            }
+            _ => {
+                if !(self.body.is_empty() && self.bare_empty) {
+                    hs.push(("Content-Length".into(), self.body.len().to_string().into_bytes()));
+                }
+                body_wire.extend_from_slice(&self.body);
+            }
+        }
+        let mut out = crate::rawhttp::request_head(&self.method, target, &hs);
+        out.extend_from_slice(&body_wire);
+        out
+    }
 }
